@@ -115,3 +115,23 @@ V('C07', 'pending-guard-shared-with-parent', 'edb/pgsql/compiler/context.py', 'e
 ''', '', 'C07.R8', 'pending_type_rewrite_ctes:scoped-by-newrel')
 V('C07', 'abstract-types-have-no-policies', PO, 'edb.edgeql.compiler.policies.get_access_policies',
   '    # The apply_access_policies config flag disables user-specified\n', '    if stype.get_abstract(schema):\n        return ()\n\n    # The apply_access_policies config flag disables user-specified\n', 'C07.R9', 'withheld-only-by-options')
+
+# round 4
+V('C07', 'when-condition-only-with-using', 'edb/edgeql/compiler/policies.py',
+  'edb.edgeql.compiler.policies.compile_pol',
+  '''    if expr_field:
+        expr = expr_field.parse()
+    else:
+        expr = qlast.Constant.boolean(True)
+
+    if condition := pol.get_condition(schema):
+        assert isinstance(condition, s_expr.Expression)
+        expr = qlast.BinOp(op='AND', left=condition.parse(), right=expr)
+''', '''    condition = pol.get_condition(schema)
+    if expr_field:
+        expr = expr_field.parse()
+        if condition:
+            expr = qlast.BinOp(op='AND', left=condition.parse(), right=expr)
+    else:
+        expr = qlast.Constant.boolean(True)
+''', 'C07.R10', 'when-condition-always-applied')
